@@ -55,6 +55,7 @@ func Init() {
 
 type univ struct {
 	mu    sync.Mutex
+	imu   sync.Mutex
 	std   types.ImporterFrom
 	dirs  map[string]string // non-std import path -> dir
 	cache map[string]*types.Package
@@ -96,14 +97,43 @@ func (u *univ) Unlock() { u.mu.Unlock() }
 
 func (u *univ) Import(path string) (*types.Package, error) { return u.ImportFrom(path, "", 0) }
 
-// ImportFrom must be called with u.mu held (Load does).
+// FakeResolver, when set, supplies source text for import paths starting with "fake/".
+var FakeResolver func(path string) (src string, ok bool)
+
+// ImportFrom is safe for concurrent use (the source importer underneath is not, so it is serialised).
 func (u *univ) ImportFrom(path, srcDir string, mode types.ImportMode) (*types.Package, error) {
 	if path == "unsafe" {
 		return types.Unsafe, nil
 	}
+	u.imu.Lock()
+	defer u.imu.Unlock()
+	return u.importLocked(path)
+}
+
+func (u *univ) importLocked(path string) (*types.Package, error) {
+	if strings.HasPrefix(path, "fake/") && FakeResolver != nil {
+		if p, ok := u.cache[path]; ok {
+			return p, nil
+		}
+		src, ok := FakeResolver(path)
+		if !ok {
+			return nil, fmt.Errorf("no fake package %q", path)
+		}
+		f, err := parser.ParseFile(Fset, "/vfake/"+path+"/f.go", src, 0)
+		if err != nil {
+			return nil, err
+		}
+		conf := types.Config{Importer: lockedImporter{u}, Sizes: Sizes, Error: func(error) {}}
+		pkg, _ := conf.Check(path, Fset, []*ast.File{f}, nil)
+		u.cache[path] = pkg
+		return pkg, nil
+	}
+	u.mu.Lock()
 	if p, ok := u.extra[path]; ok {
+		u.mu.Unlock()
 		return p, nil
 	}
+	u.mu.Unlock()
 	if p, ok := u.cache[path]; ok {
 		return p, nil
 	}
@@ -137,10 +167,20 @@ func (u *univ) ImportFrom(path, srcDir string, mode types.ImportMode) (*types.Pa
 		}
 		files = append(files, f)
 	}
-	conf := types.Config{Importer: u, Sizes: Sizes, Error: func(error) {}}
+	conf := types.Config{Importer: lockedImporter{u}, Sizes: Sizes, Error: func(error) {}}
 	pkg, _ := conf.Check(path, Fset, files, nil)
 	u.cache[path] = pkg
 	return pkg, nil
+}
+
+// lockedImporter is used for nested imports while imu is already held.
+type lockedImporter struct{ u *univ }
+
+func (l lockedImporter) Import(path string) (*types.Package, error) {
+	if path == "unsafe" {
+		return types.Unsafe, nil
+	}
+	return l.u.importLocked(path)
 }
 
 // Register makes pkg importable under its path for later Load calls.
@@ -219,6 +259,11 @@ func (p *Pkg) Release() {
 	if p.Dir != "" {
 		os.RemoveAll(p.Dir)
 	}
+	for _, f := range p.Files {
+		if tf := Fset.File(f.Pos()); tf != nil {
+			Fset.RemoveFile(tf)
+		}
+	}
 }
 
 var loadSeq int
@@ -252,11 +297,27 @@ func Load(path string, files []File) *Pkg {
 		p.Names = append(p.Names, f.Name)
 		p.Src[f.Name] = f.Src
 	}
-	U.mu.Lock()
-	defer U.mu.Unlock()
 	conf := types.Config{Importer: U, Sizes: Sizes, Error: func(err error) { p.Errs = append(p.Errs, err) }}
 	p.Types, _ = conf.Check(path, Fset, p.Files, p.Info)
 	return p
+}
+
+// Precheck reports whether files parse and type-check, using a throw-away file set (so rejected
+// candidates leave no trace in the shared one).
+func Precheck(path string, files []File) bool {
+	fset := token.NewFileSet()
+	var afs []*ast.File
+	for _, f := range files {
+		af, err := parser.ParseFile(fset, f.Name, f.Src, parser.SkipObjectResolution)
+		if err != nil {
+			return false
+		}
+		afs = append(afs, af)
+	}
+	ok := true
+	conf := types.Config{Importer: U, Sizes: Sizes, Error: func(err error) { ok = false }}
+	conf.Check(path, fset, afs, nil)
+	return ok
 }
 
 // LoadOne loads a single-file package.
@@ -320,6 +381,12 @@ type Diag struct {
 	FromPos token.Pos
 	ToPos   token.Pos
 	Repl    string
+	// position facts for C07
+	PosValid    bool
+	InFile      bool // Pos lies in the analysed file
+	FixInFile   bool // fix range valid, non-inverted and inside the analysed file
+	Filename    string
+	VisitedFile string
 }
 
 func (d Diag) String() string {
@@ -338,11 +405,20 @@ type Crash struct {
 	Hang    bool
 }
 
-func mkDiag(name string, w linter.Warning) Diag {
+func mkDiag(name string, w linter.Warning, f *ast.File) Diag {
 	pos := Fset.PositionFor(w.Pos, false)
 	d := Diag{Checker: name, Pos: w.Pos, File: filepath.Base(pos.Filename), Line: pos.Line, Col: pos.Column, Offset: pos.Offset, Text: w.Text, From: -1, To: -1}
+	d.PosValid = w.Pos.IsValid()
+	d.Filename = pos.Filename
+	tf := Fset.File(f.Package)
+	if tf != nil {
+		d.VisitedFile = tf.Name()
+		d.InFile = d.PosValid && Fset.File(w.Pos) == tf
+	}
 	if w.HasQuickFix() {
 		d.HasFix = true
+		d.FixInFile = w.Suggestion.From.IsValid() && w.Suggestion.To.IsValid() && w.Suggestion.From <= w.Suggestion.To &&
+			tf != nil && Fset.File(w.Suggestion.From) == tf && Fset.File(w.Suggestion.To) == tf
 		d.FromPos, d.ToPos = w.Suggestion.From, w.Suggestion.To
 		if w.Suggestion.From.IsValid() {
 			d.From = Fset.PositionFor(w.Suggestion.From, false).Offset
@@ -390,7 +466,7 @@ func CheckOne(c *linter.Checker, f *ast.File) (diags []Diag, crash *Crash) {
 	}()
 	ws := c.Check(f)
 	for _, w := range ws {
-		diags = append(diags, mkDiag(c.Info.Name, w))
+		diags = append(diags, mkDiag(c.Info.Name, w, f))
 	}
 	return diags, nil
 }
